@@ -11,7 +11,7 @@
    million tokens of liabilities), for all worlds satisfying HOk, all instructions, all amounts, all prices,
    all clock values, SPL and Token-2022 mints with any transfer fee; and lift it to histories of any length. *)
 Require Import Base Constants Fixed Curve Bank BankOps Risk TransferFee Handlers.
-Require Import FixedLemmas BankLemmas AccrualLemmas SolvencyLemmas LedgerLemmas HandlerEffects SolvencyHandlers SolvencyWorld HandlerWorld.
+Require Import FixedLemmas BankLemmas AccrualLemmas SolvencyLemmas LedgerLemmas HandlerEffects SolvencyHandlers SolvencyWorld HandlerWorld WorldCheck WorldCheckLemmas.
 Local Open Scope Z_scope.
 
 (* one successful instruction: for every bank, the gap falls by at most the rounding allowance of that
@@ -59,6 +59,11 @@ Proof. exact hstep_HOk2. Qed.
 
 Theorem C01_HOk2_implies_HOk : forall w, HOk2 w -> HOk w.
 Proof. exact HOk2_HOk. Qed.
+
+(* the hypothesis HOk2 is decidable by an executable check (extracted and evaluated on the initial world of every
+   generated correspondence case: the evidence reports how many satisfy it) *)
+Theorem C01_hypotheses_checkable : forall w, hok2b w = true -> HOk2 w.
+Proof. exact hok2b_sound. Qed.
 
 (* histories of any length (failed instructions roll back): from a well-formed world, for any sequence of
    instructions with u64 amounts in which no bank is wiped out, the gap of every bank is at
@@ -115,5 +120,6 @@ Print Assumptions C01_allowance_is.
 Print Assumptions C01_accrual_allowance.
 Print Assumptions C01_wellformedness_preserved.
 Print Assumptions C01_HOk2_implies_HOk.
+Print Assumptions C01_hypotheses_checkable.
 Print Assumptions C01_history.
 Print Assumptions C01_history_given_wellformed_states.
